@@ -4,6 +4,7 @@
 mod aik;
 mod c03;
 mod c05;
+mod c10;
 mod c08;
 mod c11;
 mod c12;
@@ -100,6 +101,8 @@ fn main() {
         "c15-text" => c15::text(&ctx),
         "c20-uplc-text" => c20_text::run(&ctx),
         "c20-json" => c20_json::run(&ctx),
+        "c10-eval" => c10::eval(&ctx),
+        "c10-gate" => c10::gate(&ctx),
         other => {
             eprintln!("unknown sub-command {other}");
             std::process::exit(2);
